@@ -260,3 +260,64 @@ pub fn explore_net(cfg: netmodel::NCfg, run: &Arc<Run>) -> Outcome {
     );
     o
 }
+
+/// `./run <id> replay <file>`: re-execute a recorded action list on the real
+/// objects without the explorer, printing every step. Exit 1 if the violation
+/// is reproduced, 0 if not.
+pub fn replay_file(run: &Arc<Run>, path: &str) -> ! {
+    let text = std::fs::read_to_string(path).unwrap_or_else(|e| vp_core::machinery_error(&format!("cannot read {}: {}", path, e)));
+    let v: Value = serde_json::from_str(&text).unwrap_or_else(|e| vp_core::machinery_error(&format!("{} is not JSON: {}", path, e)));
+    let case = &v["case"];
+    if case["model"] != "two-endpoints" {
+        println!("replay file is not an action list of the two-endpoint model; case:\n{}", serde_json::to_string_pretty(case).unwrap());
+        vp_core::machinery_error("this check replays only two-endpoint action lists; re-run the check to re-evaluate other cases");
+    }
+    let cfg = Cfg::from_json(&case["cfg_json"]).unwrap_or_else(|| vp_core::machinery_error("replay file has no usable cfg_json"));
+    let acts: Vec<model::Act> = case["actions"]
+        .as_array()
+        .unwrap_or_else(|| vp_core::machinery_error("no actions"))
+        .iter()
+        .map(|a| model::Act::parse(a.as_str().unwrap_or("")).unwrap_or_else(|| vp_core::machinery_error(&format!("cannot parse action {}", a))))
+        .collect();
+    fn go<E: Ep>(cfg: Cfg, run: &Arc<Run>, acts: &[model::Act]) -> bool {
+        let m = NetModel::<E>::new(cfg, run.clone());
+        let mut s = m.init.clone();
+        println!("initial: {}", s.summary());
+        for a in acts {
+            let mut en = Vec::new();
+            m.actions(&s, &mut en);
+            if !en.contains(a) {
+                println!("  action {} is not enabled here (enabled: {:?})", a.render(), en.iter().map(|x| x.render()).collect::<Vec<_>>());
+                return false;
+            }
+            match m.apply(&s, *a) {
+                Some(n) => s = n,
+                None => {
+                    println!("  {} -> known finding, branch pruned", a.render());
+                    return true;
+                }
+            }
+            println!("  {:<28} -> {}{}", a.render(), s.summary(), if s.bad { "  ** VIOLATION **" } else { "" });
+            if s.bad {
+                return true;
+            }
+        }
+        !m.check_state(&s)
+    }
+    let reproduced = match cfg.variant {
+        Variant::V7 => go::<c7::Connection>(cfg, run, &acts),
+        _ => go::<c6::Connection>(cfg, run, &acts),
+    };
+    println!("{}", if reproduced { "REPRODUCED" } else { "NOT REPRODUCED on the current tree" });
+    std::process::exit(if reproduced { 1 } else { 0 });
+}
+
+pub fn maybe_replay(run: &Arc<Run>) {
+    let args: Vec<String> = std::env::args().collect();
+    if args.get(1).map(|s| s.as_str()) == Some("replay") {
+        match args.get(2) {
+            Some(f) => replay_file(run, f),
+            None => vp_core::machinery_error("usage: replay <file>"),
+        }
+    }
+}
